@@ -61,6 +61,8 @@ InBand(c, i, j) ==
     IN /\ j >= i - Max2(0, l1 - l2) - w + 1
        /\ j <= i + Max2(0, l2 - l1) + w - 1
 
+CellInBand(c, i, j) == i \in 0..(L1(c) - 1) /\ j \in 0..(L2(c) - 1) /\ InBand(c, i, j)
+
 CellOK(c, i, j) ==
     /\ i \in 0..(L1(c) - 1)
     /\ j \in 0..(L2(c) - 1)
